@@ -89,3 +89,23 @@ Proof. intros. apply wseq_ok; assumption. Qed.
 
 Lemma wok_WDone : wok WDone. Proof. reflexivity. Qed.
 Lemma wout_WDone : wout WDone = []. Proof. reflexivity. Qed.
+
+(* exec up to an instruction whose handler fails without reading: Decode returns that error *)
+Theorem exec_decode_err : forall cfg st inp i st' key op st'' e rest,
+  exec cfg 0 (start_state st) inp i st' (key :: rest) ->
+  opcode_of_byte key = Some op -> is_stop op = false ->
+  handler cfg op key (i + 1) st' = fail st'' e ->
+  decode cfg st inp = ((Err e, st''), rest).
+Proof.
+  intros cfg st inp i st' key op st'' e rest E Ho Hs Hh.
+  assert (R : run (decode_loop 1 cfg i st') (key :: rest) = (Ok (Err e, st''), rest)).
+  { rewrite decode_loop_S. cbn [run]. rewrite Ho, Hs, run_bind, Hh. reflexivity. }
+  destruct (exec_run _ _ _ _ _ _ _ E 1%nat _ _ R ltac:(discriminate)) as [f0 Hf0].
+  unfold decode.
+  pose proof (loop_safe (Datatypes.S (length inp)) cfg 0 (start_state st) inp ltac:(lia)) as LS.
+  destruct (run (decode_loop (Datatypes.S (length inp)) cfg 0 (start_state st)) inp) as [r0 rest0] eqn:R0.
+  cbn [fst] in LS.
+  assert (Hm : run (decode_loop (max f0 (Datatypes.S (length inp))) cfg 0 (start_state st)) inp = (r0, rest0)).
+  { eapply loop_fuel_mono; [|exact R0|]; [lia|]. intro C. apply LS. right. exact C. }
+  rewrite (Hf0 (max f0 (Datatypes.S (length inp))) ltac:(lia)) in Hm. inversion Hm; subst. reflexivity.
+Qed.
